@@ -167,7 +167,12 @@ def run_scenario(sc):
          "skipUtf8": bool(sc.get("skipUtf8"))})
     fake = FakeSock(sc, log)
     ws = websocket.WebSocket(fire_cont_frame=bool(sc.get("fireCont")),
-                             skip_utf8_validation=bool(sc.get("skipUtf8")), enable_multithread=True)
+                             skip_utf8_validation=bool(sc.get("skipUtf8")), enable_multithread=not sc.get("nolock"))
+    nullh = None
+    if sc.get("trace"):
+        import logging
+        nullh = logging.NullHandler()
+        websocket.enableTrace(True, handler=nullh, level="DEBUG")
     if sc.get("via_connect"):
         ws.connect("ws://example.test/chat", socket=fake)
         if not ws.connected:
@@ -228,5 +233,10 @@ def run_scenario(sc):
     finally:
         signal.setitimer(signal.ITIMER_REAL, 0)
         signal.signal(signal.SIGALRM, old)
+        if nullh is not None:
+            import logging
+            websocket.enableTrace(False, handler=nullh)
+            lg = logging.getLogger("websocket")
+            lg.handlers = [h for h in lg.handlers if h is not nullh]
     log({"ev": "end"})
     return ev
